@@ -237,7 +237,8 @@ def run_case(case, tier="quick"):
         expect = "not_worse"
     elif rel == "extra_ignore":
         sc0 = [e_ for e_, s_ in (dk.get("error_scaling") or []) if s_ == 0]  # scale 0 = already ignored
-        cand = [e for e in elems if e not in dk.get("elements_to_ignore", []) and e not in sc0]
+        wless = [n_ for n_, d_ in case["graph"]["nodes"] if "flow" not in d_] if (node_mode and cls not in COVER_CLASSES) else []  # attribute-less nodes are ignored already
+        cand = [e for e in elems if e not in dk.get("elements_to_ignore", []) and e not in sc0 and e not in wless]
         if len(cand) <= 1:
             return ok(labels | {"nothing_to_ignore"}, False)
         dk["elements_to_ignore"] = list(dk.get("elements_to_ignore", [])) + [cand[pick[0] % len(cand)]]
